@@ -81,6 +81,10 @@ func c01rewrite(c *core.Ctx) {
 				c.OK("C01.a", "DOM", construct, pos, "reasoned exception: statements were processed by queuedExecute before entering the queue (C23.c)")
 				continue
 			}
+			if len(procs) == 0 && c01viaCaller(c, fn, s) {
+				c.OK("C01.a", "DOM", construct+":rewritten", pos, "the statements are processed by sql.Process in the only caller of this private helper before they are handed to it (bypass only with noparse)")
+				continue
+			}
 			if len(procs) == 0 {
 				c.Bad("C01.a", "DOM", construct+":rewritten", pos, name+" hands client SQL to replication without sql.Process: RANDOM() and date/time 'now' calls in that text reach the log unrewritten and are evaluated separately by every node", nil)
 				continue
@@ -122,7 +126,7 @@ func c01applyPath(c *core.Ctx) {
 		}
 		calls := 0
 		for _, f := range an.WithClosures(fn) {
-			calls += len(an.CallsTo(f, false, proc))
+			calls += len(anchorCalls(f, proc))
 		}
 		c.Result(calls >= 1, "C01.b", "WHO", n.name+":uses-shared-apply-path", c.P.Pos(fn.Pos()), n.name+" applies entries through CommandProcessor.Process", n.name+" does not apply entries through CommandProcessor.Process (a private copy of the apply logic can diverge)", nil)
 	}
